@@ -296,6 +296,9 @@ def sigFromPy(pobj):
             elif not isinstance(v, vtype):
                 same = False
         if same:
+            # the value type is the one the elements were tested against:
+            # the first value's (mirrors the list rule above)
+            k, v = next(iter(pobj.items()))
             return 'a{' + sigFromPy(k) + sigFromPy(v) + '}'
         else:
             return 'a{' + sigFromPy(k) + 'v}'
